@@ -432,6 +432,11 @@ class Result:
             with open(p + ".tmp", "w") as fh:
                 json.dump(ev, fh, indent=1)
             os.replace(p + ".tmp", p)
+        # every listed known finding is reported on each run, whether or not this run happened to reproduce it
+        for k in known:
+            if k.get("status") == "known" and k["signature"] not in self.known_printed:
+                self.known_printed.append(k["signature"])
+                print("KNOWN-FINDING: property=%s %s [listed; not reproduced in this run]" % (self.prop, k.get("text", k["signature"])), flush=True)
         for v in violations:
             print("--- failing case (%s) ---\n%s" % (v.get("sig"), (v.get("msg") or "")[-3000:]), flush=True)
             print("VIOLATION property=%s replay=%s" % (self.prop, v.get("replay") or "<none>"), flush=True)
